@@ -1142,6 +1142,68 @@ func runRows(e *core.Env, prop string) error {
 				e.Add(core.Case{Impl: got, Spec: spec, Key: "c12-grid " + op + " " + an, Nontrivial: true, Tags: []string{"operator-argument-grid", "op=" + op}})
 			}
 		}
+		// transaction declarations with TWO filtered fields, every accept / reject combination, under each
+		// aggregation — as the file path builds them (ValidateFix) and as the database path does (dig.New on the
+		// stored form: the aggregation as written, "" meaning the default "or")
+		for _, agg := range []string{"", "or", "and"} {
+			for _, viaDB := range []bool{false, true} {
+				for combo := 0; combo < 4; combo++ {
+					acc1, acc2 := combo&1 == 1, combo&2 == 2
+					blk, _ := makeItem(r)
+					blk.Txs[0].To, blk.Txs[0].From = r.Bytes(20), r.Bytes(20)
+					arg := func(actual []byte, accept bool) []string {
+						if accept {
+							return []string{hx(actual)}
+						}
+						return []string{hx(r.Bytes(20))}
+					}
+					_, cig, err := buildIG("igt", "tt", []string{"tx_to", "tx_signer", "tx_hash"}, nil, nil, agg, func(ci *config.Integration) {
+						for j := range ci.Block {
+							switch ci.Block[j].Name {
+							case "tx_to":
+								ci.Block[j].Filter = dig.Filter{Op: "eq", Arg: arg(blk.Txs[0].To, acc1)}
+							case "tx_signer":
+								ci.Block[j].Filter = dig.Filter{Op: "eq", Arg: arg(blk.Txs[0].From, acc2)}
+							}
+						}
+					})
+					if err != nil {
+						e.Add(core.Case{Impl: "config-rejected: " + err.Error(), Spec: "accepted", Key: fmt.Sprintf("c12-txgrid-cfg %q %d", agg, combo), Tags: []string{"config-rejected"}})
+						continue
+					}
+					useAgg := cig.FilterAGG // what ValidateFix made of it
+					if viaDB {
+						useAgg = agg // the stored form: as written
+					}
+					igx, err := dig.New(cig.Name, cig.Event, cig.Block, cig.Table, cig.Notification, useAgg)
+					if err != nil {
+						e.Add(core.Case{Impl: "dig.New: " + err.Error(), Spec: "accepted", Key: fmt.Sprintf("c12-txgrid-new %q %d %v", agg, combo, viaDB), Tags: []string{"config-rejected"}})
+						continue
+					}
+					fc := &fakeConn{}
+					var mu sync.Mutex
+					got := core.Protect(func() string {
+						if _, err := igx.Insert(e2eCtx("src1", 7), &mu, fc, []eth.Block{blk}); err != nil {
+							return "err"
+						}
+						if len(fc.copies) == 1 && len(fc.copies[0].Rows) == 1 {
+							return "kept"
+						}
+						return "dropped"
+					})
+					want := acc1 || acc2
+					if agg == "and" {
+						want = acc1 && acc2
+					}
+					spec := "dropped"
+					if want {
+						spec = "kept"
+					}
+					e.Add(core.Case{Impl: got, Spec: spec, Key: fmt.Sprintf("c12-txgrid %q %v %v database-path=%v", agg, acc1, acc2, viaDB), Nontrivial: true,
+						Tags: []string{"tx-two-filters-grid", "agg=" + agg, fmt.Sprintf("database-path=%v", viaDB)}})
+				}
+			}
+		}
 	}
 	{
 		// integrations of one source share one caching client (C11: the stored values, C12: no log the
